@@ -12,10 +12,15 @@ use std::convert::TryInto;
 fn parse_xref_section_from_stream(first_id: u32, mut num_entries: usize, width: &[usize], data: &mut &[u8], resolve: &impl Resolve) -> Result<XRefSection> {
     let mut entries = Vec::new();
     let [w0, w1, w2]: [usize; 3] = width.try_into().map_err(|_| other!("invalid xref length array"))?;
-    if num_entries * (w0 + w1 + w2) > data.len() {
+    let entry_len = w0.checked_add(w1).and_then(|n| n.checked_add(w2)).ok_or_else(|| other!("invalid xref length array"))?;
+    if entry_len == 0 {
+        // entries of no bytes would let /Index declare any number of objects without any data
+        bail!("xref stream entries have zero width");
+    }
+    if num_entries.checked_mul(entry_len).map(|n| n > data.len()).unwrap_or(true) {
         if resolve.options().allow_xref_error {
             warn!("not enough xref data. truncating.");
-            num_entries = data.len() / (w0 + w1 + w2);
+            num_entries = data.len() / entry_len;
         } else {
             bail!("not enough xref data");
         }
